@@ -9,7 +9,7 @@ def needs(pid, tier):
     t = tier == 'thorough'
     gen = GENF if t else GENQ
     table = {
-        'C01': (['ws-default'], gen, False),
+        'C01': (['ws-default', 'logos-forbid'], gen, False),
         'C02': (['fixture-cg', 'ws-default'] + (['logos-forbid'] if t else []), gen, False),
         'C03': (['ws-default', 'logos-forbid'], gen, False),
         'C04': (['fixture-cg', 'ws-default'] + (['logos-release', 'logos-forbid'] if t else []), gen, t),
